@@ -479,6 +479,23 @@ def runActs (sh : Shape) : St → List Act → Option St
     | none => none
     | some t => runActs sh t as
 
+/-- the components of a state that the driver reports and the witnesses in Props/C15 are about -/
+structure Sig where
+  loop : LoopPC
+  dl : Dl
+  done : Bool
+  mux : MuxPC
+  server : Bool
+  n : Nat
+  poked2 : Bool
+  sock : Bool
+  cl0 : CPC
+  cl1 : CPC
+  cl2 : CPC
+deriving DecidableEq, Repr
+
+def sig (s : St) : Sig := ⟨s.loop, s.dl, s.done, s.mux, s.server, s.n, s.poked2, s.sock, s.cl 0, s.cl 1, s.cl 2⟩
+
 /-- no actor can move -/
 def quiescentB (sh : Shape) (s : St) : Bool := (List.range (actors s)).all fun a => (actorNext sh s a).isNone
 
